@@ -67,6 +67,28 @@ def level_family(n_frames_max, rng, sample_last=None):
     return out
 
 
+def large_family(rng, quick):
+    """Many ground-truth instances (label files are not toy-sized): n frames x g animals, every prediction perfect, or
+    all but one.  Totals include integers n for which n * (1/n) != 1 in floating point (49, 98, 103, 107, 161, ...)."""
+    out = []
+    totals = [49, 98, 103, 107, 161, 64, 100] if quick else [49, 98, 103, 107, 161, 187, 196, 197, 64, 100, 128, 150]
+    for n in totals:
+        for per in ((1,) if quick else (1, 7)):
+            if n % per:
+                continue
+            for miss in (False, True):
+                frames = []
+                for f in range(n // per):
+                    gts = [shifted(TRI, (320 * a, 0)) for a in range(per)]
+                    prs = [shifted(g, (0, 0)) for g in gts]
+                    frames.append(dict(gt=gts, pr=prs, sc=[(f * per + a + 1) * 2 for a in range(per)], haspr=True))
+                if miss:
+                    k = rng.randrange(len(frames))
+                    frames[k] = dict(frames[k], pr=frames[k]["pr"][1:], sc=frames[k]["sc"][1:])
+                out.append(new_case(frames, 3, tag="large"))
+    return out
+
+
 def tie_family(rng, count):
     """10 or 20 one-animal frames: recalls tp/npig hit the recall thresholds k/100 exactly, including the
     k where numpy's linspace value lies above k/100 (35, 41, 47, 57, 69, 70, 82, 83, 94, 95)."""
@@ -362,6 +384,7 @@ def run(tier, seed):
     cases += level_family(3 if quick else 4, rng, sample_last=None if quick else 6000)
     n_levels = len(cases)
     cases += tie_family(rng, 60 if quick else 600)
+    cases += large_family(rng, quick)
     n_rand = 900 if quick else 9000
     rand = [random_case(rng) for _ in range(n_rand)]
     cases += rand
@@ -384,7 +407,7 @@ def run(tier, seed):
         observe_del(d)
     t_obs = time.time()
     allc = cases + dels + [d["red"] for d in dels] + [d["base"] for d in dels if d["base"]["tag"] in ("delete-levels", "tlc-counterexample")]
-    skipped, j = judge_and_report(res, allc, "level families %d, recall-tie family %d, random label pairs %d, delete relations %d (+ their reduced runs)" % (n_levels, len(cases) - n_levels - n_rand, n_rand, len(dels)))
+    skipped, j = judge_and_report(res, allc, "level families %d, recall-tie + large (49..197 instances) families %d, random label pairs %d, delete relations %d (+ their reduced runs)" % (n_levels, len(cases) - n_levels - n_rand, n_rand, len(dels)))
 
     res.coverage["phase_s"] = dict(model_checking=round(t_mc - res.t0, 1), run_real_code=round(t_obs - t_mc, 1), judge=round(time.time() - t_obs, 1))
     # (3) coverage bookkeeping (measured) -------------------------------------------------------
